@@ -61,6 +61,25 @@ def diag_names():
     return res
 
 
+def diag_referenced(names):
+    """names of descriptors that dora-frontend's code refers to outside diagnostics.rs (the others are dead)"""
+    want = set(names.values())
+    seen = set()
+    root = os.path.join(C.REPO, "dora-frontend/src")
+    for d, _, fs in os.walk(root):
+        for f in fs:
+            if not f.endswith(".rs") or os.path.join(d, f) == DIAG_RS:
+                continue
+            try:
+                src = open(os.path.join(d, f), encoding="utf-8").read()
+            except OSError:
+                continue
+            for w in set(re.findall(r"\b[A-Z][A-Z0-9_]{3,}\b", src)):
+                if w in want:
+                    seen.add(w)
+    return seen
+
+
 def enclosing_fn(site):
     """`file:line[@caller<caller2]` -> `file:[Impl::]fn[@caller]` by scanning the source backwards for `fn <name>`
     and the `impl` block around it; falls back to file:line.  Line numbers shift when a file is edited, names
@@ -224,7 +243,15 @@ def cli_verdict(rc, err, inproc):
 # ----------------------------------------------------------------------------- the check
 
 def run(ctx):
+    import time
     notes = []
+    phases = {}
+    t_last = [time.time()]
+
+    def phase(name):
+        now = time.time()
+        phases[name] = round(now - t_last[0], 1)
+        t_last[0] = now
     tmp = os.path.join(C.BUILD, "tmp")
     os.makedirs(tmp, exist_ok=True)
     po = C.proof_obligations(ctx, PROP_MODULE, PROP_FILE,
@@ -237,6 +264,7 @@ def run(ctx):
     if hbin is None:
         ctx.finding("corr:build", dict(kind="correspondence", log=hlog[-3000:]),
                     "harness does not build against /repo (API of dora-frontend / dora-parser changed?)", no_input=True)
+    phase("proof+harness build (incl. waiting for the shared lake/cargo locks)")
     names = diag_names()
     stats = dict(evaluations=0, distinct=set(), hist={}, diag={}, sites={}, samples=[], oracle_failures=0,
                  ok=0, errors=0, panics=0, timeouts=0, aborts=0, cli_runs=0, cli_hist={}, min_evals=0, panic_table=[])
@@ -273,7 +301,9 @@ def run(ctx):
                 raise RuntimeError("h_c06 gen failed: " + err[-2000:])
             reqs += read_requests(gf)
             os.unlink(gf)
+        phase("generate")
         resp = run_sharded(hbin, [l for _, l in reqs], "s")
+        phase("in-process analysis")
         pairs = list(zip(reqs, resp))
 
         # ---- the oracle on every answer
@@ -293,6 +323,11 @@ def run(ctx):
                 bump(stats["hist"], "answer:ok")
                 k = int(re.search(r"kinds=(\d+)", a).group(1))
                 nontrivial = k >= 3
+                m = re.search(r"diag=(\S+)", a)
+                if m and m.group(1) != "-":
+                    for kv in m.group(1).split(","):
+                        h, n = kv.split(":")
+                        bump(stats["diag"], names.get(h, "id_" + h), int(n))
             elif cls == "errors":
                 stats["errors"] += 1
                 nontrivial = True
@@ -353,6 +388,7 @@ def run(ctx):
         budget = "150" if ctx.tier == "quick" else "1500"
         starts = [min(groups[k], key=lambda x: x[0]) for k in keys_sorted]
         mins = run_sharded(hbin, ["min %s %s" % (hexs(st[1]), budget) for st in starts], "m", per_req_s=3000)
+        phase("minimise")
         minimized = {}
         reported_bases = set()
         for key, st, m in zip(keys_sorted, starts, mins):
@@ -410,6 +446,7 @@ def run(ctx):
                 futs = [ex.submit(cli_one, tc["dora"], wd, i, t) for i, (_, t, _) in enumerate(sample)]
                 cres = [f.result() for f in futs]
             shutil.rmtree(wd, ignore_errors=True)
+            phase("cli (incl. tool-chain build / lock)")
             for (fam, text, inproc), (rc, err) in zip(sample, cres):
                 stats["cli_runs"] += 1
                 cls, site, problem = cli_verdict(rc, err, inproc)
@@ -441,9 +478,13 @@ def run(ctx):
     for row in site_table:
         C.log("C06: panic site %-70s inputs=%-4d minimized=%r" % (row["key"][len("oracle:panic:"):], row["inputs"], row["minimized"][:100]))
     diag_sorted = dict(sorted(stats["diag"].items(), key=lambda kv: -kv[1]))
+    referenced = diag_referenced(names)
+    not_hit = sorted(referenced - set(diag_sorted))
     C.log("C06: %d inputs: %d ok, %d with diagnostics, %d panics at %d raw locations, %d timeouts, %d aborts; %d diagnostic kinds; cli %s"
           % (stats["evaluations"], stats["ok"], stats["errors"], stats["panics"], len(stats["sites"]), stats["timeouts"],
              stats["aborts"], len(diag_sorted), stats["cli_hist"]))
+    C.log("C06: %d of the %d diagnostic kinds the analysis can emit were hit (%d defined); not hit: %s"
+          % (len(set(diag_sorted) & referenced), len(referenced), len(names), ", ".join(not_hit)))
     C.log("C06: diagnostic kinds hit: " + ", ".join("%s:%d" % kv for kv in list(diag_sorted.items())[:400]))
     cov = dict(obligations=po["obligations"], discharged=po["discharged"], checker_cmd=po["checker_cmd"],
                trusted_base=po["trusted_base"] + [
@@ -470,13 +511,16 @@ def run(ctx):
                panic_sites=site_table, panic_sites_distinct=len(site_table), panic_raw_locations=stats["sites"],
                minimiser_evaluations=stats["min_evals"],
                diagnostic_kinds=diag_sorted, diagnostic_kinds_distinct=len(diag_sorted),
-               diagnostic_kinds_defined=len(names),
+               diagnostic_kinds_defined=len(names), diagnostic_kinds_referenced_in_code=len(referenced),
+               diagnostic_kinds_referenced_not_hit=not_hit,
                cli_runs=stats["cli_runs"], cli_histogram=stats["cli_hist"],
                histogram=stats["hist"], samples=stats["samples"] or [dict(note="no sample")],
                disagreements=0, oracle_failures=stats["oracle_failures"],
                explored_not_proved="semantic analysis (everything after parsing) and the grammar routines: panic-freedom, "
                                    "termination and in-range spans are checked on the inputs above only")
+    C.log("C06: phases (s): %s" % phases)
     ctx.notes += notes
+    cov["phase_seconds"] = phases
     ctx.write_evidence("proof", cov, assumptions=[
         "texts are shorter than 2^32 bytes (u32 offsets); lengths are natural numbers in the models",
         "the theorems speak about the hand-written models of the lexer and the parser core; agreement with dora-parser is "
